@@ -15,20 +15,19 @@ pub const MAXC: usize = 3;
 const NONE: usize = 9;
 
 /// Textbook LRU: `ord[0..n]` = key indices, most recent first; capacity `cap`.
-/// `lost` = entries removed by explicit evict_tail / evict_to_target since the last reset (ghost
-/// counter used only to delimit the region of known finding KF-1; the model itself never uses it).
 pub struct Model {
     pub cap: usize,
+    /// number of alphabet keys used by this harness (ALPHA[0..nk])
+    pub nk: usize,
     pub n: usize,
     pub ord: [usize; MAXC],
-    pub lost: usize,
     pub generation: u64,
     pub prev_generation: u64,
 }
 
 impl Model {
-    pub fn new(cap: usize) -> Self {
-        Self { cap, n: 0, ord: [NONE; MAXC], lost: 0, generation: 1, prev_generation: 0 }
+    pub fn new(cap: usize, nk: usize) -> Self {
+        Self { cap, nk, n: 0, ord: [NONE; MAXC], generation: 1, prev_generation: 0 }
     }
     pub fn pos(&self, k: usize) -> usize {
         let mut p = NONE;
@@ -88,12 +87,10 @@ impl Model {
             return false;
         }
         self.n -= 1;
-        self.lost += 1;
         true
     }
     pub fn reset(&mut self) {
         self.n = 0;
-        self.lost = 0;
     }
 }
 
@@ -116,10 +113,14 @@ pub fn observe(m: &LruManager, md: &Model) {
     assert!(m.len() <= md.cap, "more entries than the capacity");
     assert!(m.is_empty() == (md.n == 0), "is_empty differs from the textbook LRU");
     assert!(m.capacity() as usize == md.cap, "capacity changed");
-    let mut q = 0;
-    while q < NK {
-        assert!(m.contains(&ALPHA[q]) == md.has(q), "contains differs from the textbook LRU");
-        q += 1;
+    // key set: every key of the model is present; together with len == n (distinct model keys) this
+    // gives set equality, i.e. `contains` is false for every other key
+    let mut i = 0;
+    while i < MAXC {
+        if i < md.n {
+            assert!(m.contains(&ALPHA[md.ord[i]]), "contains: a key of the textbook LRU is missing");
+        }
+        i += 1;
     }
     // recency order: for_each_entry walks least-recent -> most-recent
     let mut seen = [NONE; MAXC + 1];
@@ -158,25 +159,17 @@ pub fn observe(m: &LruManager, md: &Model) {
 }
 
 // ---- steps ---------------------------------------------------------------------------------------
-pub fn any_key() -> usize {
+pub fn any_below(n: usize) -> usize {
     let k: usize = kani::any();
-    kani::assume(k < NK);
+    kani::assume(k < n);
     k
 }
 
-/// KF-1 region: a touch of an absent key when (present + explicitly evicted since reset) >= capacity
-/// would need a slot that evict_tail never returned to the free list.
-pub fn in_kf1_region(md: &Model, k: usize) -> bool {
-    md.lost > 0 && !md.has(k) && md.n + md.lost >= md.cap
-}
-
 pub fn step_touch(m: &mut LruManager, md: &mut Model, k: usize) {
-    kani::assume(!in_kf1_region(md, k));
     let key = ALPHA[k];
     let r = m.touch(&key);
     md.touch(k);
     assert!(r, "touch with capacity >= 1 must return true");
-    assert!(m.contains(&key), "touched key must be present");
     observe(m, md);
 }
 pub fn step_remove(m: &mut LruManager, md: &mut Model, k: usize) {
@@ -184,6 +177,7 @@ pub fn step_remove(m: &mut LruManager, md: &mut Model, k: usize) {
     let r = m.remove(&key);
     let want = md.remove(k);
     assert!(r == want, "remove must report whether the key was present");
+    assert!(!m.contains(&key), "removed key still present");
     observe(m, md);
 }
 pub fn step_evict_tail(m: &mut LruManager, md: &mut Model) {
@@ -195,11 +189,8 @@ pub fn step_evict_tail(m: &mut LruManager, md: &mut Model) {
     }
     observe(m, md);
 }
-pub fn step_evict_to_target(m: &mut LruManager, md: &mut Model, target: u64, avg: u64) {
-    // no overflow of the running total inside the bound (MAXC * 2^40)
-    kani::assume(avg <= 1 << 40);
-    let (cnt, freed) = m.evict_to_target(target, avg);
-    // textbook: evict least-recent entries while freed < target
+/// textbook evict_to_target on the model: evict least-recent entries while freed < target
+pub fn model_evict_to_target(md: &mut Model, target: u64, avg: u64) -> (usize, u64) {
     let mut wc = 0usize;
     let mut wf = 0u64;
     let mut i = 0;
@@ -210,6 +201,11 @@ pub fn step_evict_to_target(m: &mut LruManager, md: &mut Model, target: u64, avg
         }
         i += 1;
     }
+    (wc, wf)
+}
+pub fn step_evict_to_target(m: &mut LruManager, md: &mut Model, target: u64, avg: u64) {
+    let (cnt, freed) = m.evict_to_target(target, avg);
+    let (wc, wf) = model_evict_to_target(md, target, avg);
     assert!(cnt == wc, "evict_to_target evicted a wrong number of entries");
     assert!(freed == wf, "evict_to_target reports wrong freed bytes");
     observe(m, md);
@@ -226,52 +222,356 @@ pub fn step_reset(m: &mut LruManager, md: &mut Model) {
     observe(m, md);
 }
 
-macro_rules! lru_step {
-    (T, $m:ident, $md:ident) => {{
-        let k = any_key();
-        step_touch(&mut $m, &mut $md, k);
+/// Concrete (target_bytes, avg_entry_size) grid used where evict_to_target is followed by further
+/// steps: nothing / exactly 1 (freed == target stops) / exactly 2 (target one above) / everything
+/// (avg 0 never reaches the target).  Fully symbolic arguments: family c17_evict_to_target_sym.
+pub const GRID: [(u64, u64); 4] = [(0, 7), (7, 7), (8, 7), (1, 0)];
+
+// History runner.  Every symbolic choice (operation / key of a step) is turned into an if/else-if chain
+// whose arms contain the REST of the history, so each path through the real code runs on concrete
+// container state (CBMC merges states only at the very end); the choices are kani::any() inputs, so a
+// counterexample replays natively.  Tokens:
+//   T0..T3 R0..R3 G0..G3  fixed key / grid point        T R   choice over the harness's nk keys
+//   D  touch of any ABSENT key                            G     choice over grid points 1..3
+//   E  evict_tail   Z reset   B bump_generation           X     E | G | Z
+//   A  any operation: T | R | E | G | Z                   N     R | E | G | Z
+macro_rules! lru_run {
+    ($m:ident, $md:ident, $cv:ident;) => {{
+        $cv[0] = true;
+        if $md.n > 0 { $cv[1] = true; }
     }};
-    (R, $m:ident, $md:ident) => {{
-        let k = any_key();
-        step_remove(&mut $m, &mut $md, k);
+    ($m:ident, $md:ident, $cv:ident; T0 $($rest:tt)*) => {{ step_touch(&mut $m, &mut $md, 0); lru_run!($m, $md, $cv; $($rest)*); }};
+    ($m:ident, $md:ident, $cv:ident; T1 $($rest:tt)*) => {{ step_touch(&mut $m, &mut $md, 1); lru_run!($m, $md, $cv; $($rest)*); }};
+    ($m:ident, $md:ident, $cv:ident; T2 $($rest:tt)*) => {{ step_touch(&mut $m, &mut $md, 2); lru_run!($m, $md, $cv; $($rest)*); }};
+    ($m:ident, $md:ident, $cv:ident; T3 $($rest:tt)*) => {{ step_touch(&mut $m, &mut $md, 3); lru_run!($m, $md, $cv; $($rest)*); }};
+    ($m:ident, $md:ident, $cv:ident; R0 $($rest:tt)*) => {{ step_remove(&mut $m, &mut $md, 0); lru_run!($m, $md, $cv; $($rest)*); }};
+    ($m:ident, $md:ident, $cv:ident; R1 $($rest:tt)*) => {{ step_remove(&mut $m, &mut $md, 1); lru_run!($m, $md, $cv; $($rest)*); }};
+    ($m:ident, $md:ident, $cv:ident; R2 $($rest:tt)*) => {{ step_remove(&mut $m, &mut $md, 2); lru_run!($m, $md, $cv; $($rest)*); }};
+    ($m:ident, $md:ident, $cv:ident; R3 $($rest:tt)*) => {{ step_remove(&mut $m, &mut $md, 3); lru_run!($m, $md, $cv; $($rest)*); }};
+    ($m:ident, $md:ident, $cv:ident; G0 $($rest:tt)*) => {{ step_evict_to_target(&mut $m, &mut $md, GRID[0].0, GRID[0].1); lru_run!($m, $md, $cv; $($rest)*); }};
+    ($m:ident, $md:ident, $cv:ident; G1 $($rest:tt)*) => {{ step_evict_to_target(&mut $m, &mut $md, GRID[1].0, GRID[1].1); lru_run!($m, $md, $cv; $($rest)*); }};
+    ($m:ident, $md:ident, $cv:ident; G2 $($rest:tt)*) => {{ step_evict_to_target(&mut $m, &mut $md, GRID[2].0, GRID[2].1); lru_run!($m, $md, $cv; $($rest)*); }};
+    ($m:ident, $md:ident, $cv:ident; G3 $($rest:tt)*) => {{ step_evict_to_target(&mut $m, &mut $md, GRID[3].0, GRID[3].1); lru_run!($m, $md, $cv; $($rest)*); }};
+    ($m:ident, $md:ident, $cv:ident; E $($rest:tt)*) => {{ step_evict_tail(&mut $m, &mut $md); lru_run!($m, $md, $cv; $($rest)*); }};
+    ($m:ident, $md:ident, $cv:ident; B $($rest:tt)*) => {{ step_bump(&mut $m, &mut $md); lru_run!($m, $md, $cv; $($rest)*); }};
+    ($m:ident, $md:ident, $cv:ident; Z $($rest:tt)*) => {{ step_reset(&mut $m, &mut $md); lru_run!($m, $md, $cv; $($rest)*); }};
+    ($m:ident, $md:ident, $cv:ident; T $($rest:tt)*) => {{
+        let k = any_below($md.nk);
+        if k == 0 { lru_run!($m, $md, $cv; T0 $($rest)*); }
+        else if k == 1 { if 1 < $md.nk { lru_run!($m, $md, $cv; T1 $($rest)*); } }
+        else if k == 2 { if 2 < $md.nk { lru_run!($m, $md, $cv; T2 $($rest)*); } }
+        else { if 3 < $md.nk { lru_run!($m, $md, $cv; T3 $($rest)*); } }
     }};
-    (E, $m:ident, $md:ident) => {{
-        step_evict_tail(&mut $m, &mut $md);
+    ($m:ident, $md:ident, $cv:ident; D $($rest:tt)*) => {{
+        let k = any_below($md.nk);
+        if k == 0 { if !$md.has(0) { lru_run!($m, $md, $cv; T0 $($rest)*); } }
+        else if k == 1 { if 1 < $md.nk && !$md.has(1) { lru_run!($m, $md, $cv; T1 $($rest)*); } }
+        else if k == 2 { if 2 < $md.nk && !$md.has(2) { lru_run!($m, $md, $cv; T2 $($rest)*); } }
+        else { if 3 < $md.nk && !$md.has(3) { lru_run!($m, $md, $cv; T3 $($rest)*); } }
     }};
-    (G, $m:ident, $md:ident) => {{
-        let t: u64 = kani::any();
-        let a: u64 = kani::any();
-        step_evict_to_target(&mut $m, &mut $md, t, a);
+    ($m:ident, $md:ident, $cv:ident; R $($rest:tt)*) => {{
+        let k = any_below($md.nk);
+        if k == 0 { lru_run!($m, $md, $cv; R0 $($rest)*); }
+        else if k == 1 { if 1 < $md.nk { lru_run!($m, $md, $cv; R1 $($rest)*); } }
+        else if k == 2 { if 2 < $md.nk { lru_run!($m, $md, $cv; R2 $($rest)*); } }
+        else { if 3 < $md.nk { lru_run!($m, $md, $cv; R3 $($rest)*); } }
     }};
-    (B, $m:ident, $md:ident) => {{
-        step_bump(&mut $m, &mut $md);
+    ($m:ident, $md:ident, $cv:ident; G $($rest:tt)*) => {{
+        let g = any_below(3);
+        if g == 0 { lru_run!($m, $md, $cv; G1 $($rest)*); }
+        else if g == 1 { lru_run!($m, $md, $cv; G2 $($rest)*); }
+        else { lru_run!($m, $md, $cv; G3 $($rest)*); }
     }};
-    (Z, $m:ident, $md:ident) => {{
-        step_reset(&mut $m, &mut $md);
+    ($m:ident, $md:ident, $cv:ident; X $($rest:tt)*) => {{
+        let op = any_below(3);
+        if op == 0 { lru_run!($m, $md, $cv; E $($rest)*); }
+        else if op == 1 { lru_run!($m, $md, $cv; G $($rest)*); }
+        else { lru_run!($m, $md, $cv; Z $($rest)*); }
+    }};
+    ($m:ident, $md:ident, $cv:ident; N $($rest:tt)*) => {{
+        let op = any_below(2);
+        if op == 0 { lru_run!($m, $md, $cv; R $($rest)*); }
+        else { lru_run!($m, $md, $cv; X $($rest)*); }
+    }};
+    ($m:ident, $md:ident, $cv:ident; A $($rest:tt)*) => {{
+        let op = any_below(3);
+        if op == 0 { lru_run!($m, $md, $cv; T $($rest)*); }
+        else if op == 1 { lru_run!($m, $md, $cv; R $($rest)*); }
+        else { lru_run!($m, $md, $cv; X $($rest)*); }
     }};
 }
 
 macro_rules! lru_seq {
-    ($name:ident, $cap:expr, [$($k:ident),*]) => {
+    ($name:ident, $cap:expr, $nk:expr, [$($k:tt)*]) => {
         #[kani::proof]
         #[kani::unwind(10)]
         #[kani::stub(tracing_core::callsite::DefaultCallsite::interest, crate::tracing_stubs::interest_never)]
         #[kani::stub(tracing::__macro_support::__is_enabled, crate::tracing_stubs::is_enabled_false)]
         #[kani::stub(tracing_core::event::Event::dispatch, crate::tracing_stubs::dispatch_nop)]
-        #[kani::stub(std::hash::RandomState::new, crate::stubs::fixed_random_state)]
         fn $name() {
             let mut m = LruManager::new($cap, PathBuf::new());
-            let mut md = Model::new($cap);
+            let mut md = Model::new($cap, $nk);
+            let mut cv = [false; 2];
             observe(&m, &md);
-            $( lru_step!($k, m, md); )*
-            kani::cover!(md.n > 0, "history ends non-empty");
+            lru_run!(m, md, cv; $($k)*);
+            kani::cover!(cv[0], "some history runs to its end");
+            kani::cover!(cv[1], "some history ends non-empty");
             std::mem::forget(m);
         }
     };
 }
 
-// @family prop=C17 tier=thorough timeout=1500 role=probe-seq
-lru_seq!(c17_probe_c1_t_r_t, 1, [T, R, T]);
-lru_seq!(c17_probe_bt_c1_t_r_t, 1, [T, R, T]);
-lru_seq!(c17_probe_bt_c3_t_t_t, 3, [T, T, T]);
+// ---- all histories of length <= 3 that start with a touch -------------------------------------------
+// @family prop=C17 tier=quick timeout=900 mem=16 role=history-len3
+// @bounds capacity in the name (c1,c2,c3) with key alphabet ALPHA[0..capacity+1] (all-zero key, first-byte-only key, last-byte-only key, all-ones key); EVERY history of length <= 3 (every prefix is compared) whose first step is touch(first key in the name) and whose later steps are any of touch(k)/remove(k)/evict_tail/evict_to_target(grid)/reset with any alphabet key; after every step: len, is_empty, capacity, contains (all keys), full recency order, return values vs a textbook LRU
+// @encodes cascette_client_storage::lru::LruManager::new, cascette_client_storage::lru::LruManager::touch, cascette_client_storage::lru::LruManager::remove, cascette_client_storage::lru::LruManager::evict_tail, cascette_client_storage::lru::LruManager::evict_to_target, cascette_client_storage::lru::LruManager::reset, cascette_client_storage::lru::LruManager::contains, cascette_client_storage::lru::LruManager::len, cascette_client_storage::lru::LruManager::is_empty, cascette_client_storage::lru::LruManager::for_each_entry, cascette_client_storage::lru::LruManager::unlink, cascette_client_storage::lru::LruManager::link_at_head
+// @assumes hook H6: under cfg(kani) LruManager::key_map is a std BTreeMap instead of the std HashMap (same map contract; hashbrown does not finish); tracing neutralised (3 stubs); for_each_entry is compared on the non-zero keys only (a live all-zero key is skipped: known finding KF-2, c17_kf2_*); evict_to_target arguments from the 3-point grid (7,7)/(8,7)/(1,0) = exactly one / two / all entries (fully symbolic arguments: c17_evict_to_target_sym_*)
+// @catches touch not moving an existing key to the head, wrong victim on a full LRU, unlink/link_at_head pointer mistakes (head/tail/middle), remove or reset not returning slots to the free list, stale key_map entries after eviction, evict_to_target loop boundary (<= vs <), len/contains/order disagreeing with each other, capacity exceeded, key compares that ignore the last byte or treat the all-zero key as absent
+lru_seq!(c17_hist_c1_t0_a_a, 1, 2, [T0 A A]);
+lru_seq!(c17_hist_c1_t1_a_a, 1, 2, [T1 A A]);
+lru_seq!(c17_hist_c2_t0_a_a, 2, 3, [T0 A A]);
+lru_seq!(c17_hist_c2_t1_a_a, 2, 3, [T1 A A]);
+lru_seq!(c17_hist_c2_t2_a_a, 2, 3, [T2 A A]);
+lru_seq!(c17_hist_c3_t0_t_a, 3, 4, [T0 T A]);
+lru_seq!(c17_hist_c3_t0_n_a, 3, 4, [T0 N A]);
+lru_seq!(c17_hist_c3_t1_t_a, 3, 4, [T1 T A]);
+lru_seq!(c17_hist_c3_t1_n_a, 3, 4, [T1 N A]);
+lru_seq!(c17_hist_c3_t2_t_a, 3, 4, [T2 T A]);
+lru_seq!(c17_hist_c3_t2_n_a, 3, 4, [T2 N A]);
+lru_seq!(c17_hist_c3_t3_t_a, 3, 4, [T3 T A]);
+lru_seq!(c17_hist_c3_t3_n_a, 3, 4, [T3 N A]);
 // @end
+
+// ---- capacity 3 filled, then any operation (length 4) ------------------------------------------------
+// @family prop=C17 tier=quick timeout=900 mem=16 role=history-full3
+// @bounds capacity 3, 4-key alphabet; the LRU is filled with three distinct keys (first two in the name, third any other key), then ANY single operation (touch/remove of any of the 4 keys, evict_tail, evict_to_target grid, reset) = length-4 histories covering eviction of the true tail, re-touch of tail/middle/head, removal of tail/middle/head
+// @encodes cascette_client_storage::lru::LruManager::new, cascette_client_storage::lru::LruManager::touch, cascette_client_storage::lru::LruManager::remove, cascette_client_storage::lru::LruManager::evict_tail, cascette_client_storage::lru::LruManager::evict_to_target, cascette_client_storage::lru::LruManager::reset, cascette_client_storage::lru::LruManager::contains, cascette_client_storage::lru::LruManager::len, cascette_client_storage::lru::LruManager::is_empty, cascette_client_storage::lru::LruManager::for_each_entry, cascette_client_storage::lru::LruManager::unlink, cascette_client_storage::lru::LruManager::link_at_head
+// @assumes hook H6: under cfg(kani) LruManager::key_map is a std BTreeMap instead of the std HashMap (same map contract; hashbrown does not finish); tracing neutralised (3 stubs); for_each_entry is compared on the non-zero keys only (a live all-zero key is skipped: known finding KF-2, c17_kf2_*); evict_to_target arguments from the 3-point grid (7,7)/(8,7)/(1,0) = exactly one / two / all entries (fully symbolic arguments: c17_evict_to_target_sym_*)
+// @catches touch not moving an existing key to the head, wrong victim on a full LRU, unlink/link_at_head pointer mistakes (head/tail/middle), remove or reset not returning slots to the free list, stale key_map entries after eviction, evict_to_target loop boundary (<= vs <), len/contains/order disagreeing with each other, capacity exceeded, key compares that ignore the last byte or treat the all-zero key as absent
+lru_seq!(c17_full3_t0_t1_d_a, 3, 4, [T0 T1 D A]);
+lru_seq!(c17_full3_t1_t2_d_a, 3, 4, [T1 T2 D A]);
+lru_seq!(c17_full3_t2_t3_d_a, 3, 4, [T2 T3 D A]);
+lru_seq!(c17_full3_t3_t0_d_a, 3, 4, [T3 T0 D A]);
+// @end
+
+// @family prop=C17 tier=thorough timeout=1800 mem=16 role=history-full3
+// @bounds capacity 3, 4-key alphabet; the LRU is filled with three distinct keys (first two in the name, third any other key), then ANY single operation (touch/remove of any of the 4 keys, evict_tail, evict_to_target grid, reset) = length-4 histories covering eviction of the true tail, re-touch of tail/middle/head, removal of tail/middle/head
+// @encodes cascette_client_storage::lru::LruManager::new, cascette_client_storage::lru::LruManager::touch, cascette_client_storage::lru::LruManager::remove, cascette_client_storage::lru::LruManager::evict_tail, cascette_client_storage::lru::LruManager::evict_to_target, cascette_client_storage::lru::LruManager::reset, cascette_client_storage::lru::LruManager::contains, cascette_client_storage::lru::LruManager::len, cascette_client_storage::lru::LruManager::is_empty, cascette_client_storage::lru::LruManager::for_each_entry, cascette_client_storage::lru::LruManager::unlink, cascette_client_storage::lru::LruManager::link_at_head
+// @assumes hook H6: under cfg(kani) LruManager::key_map is a std BTreeMap instead of the std HashMap (same map contract; hashbrown does not finish); tracing neutralised (3 stubs); for_each_entry is compared on the non-zero keys only (a live all-zero key is skipped: known finding KF-2, c17_kf2_*); evict_to_target arguments from the 3-point grid (7,7)/(8,7)/(1,0) = exactly one / two / all entries (fully symbolic arguments: c17_evict_to_target_sym_*)
+// @catches touch not moving an existing key to the head, wrong victim on a full LRU, unlink/link_at_head pointer mistakes (head/tail/middle), remove or reset not returning slots to the free list, stale key_map entries after eviction, evict_to_target loop boundary (<= vs <), len/contains/order disagreeing with each other, capacity exceeded, key compares that ignore the last byte or treat the all-zero key as absent
+lru_seq!(c17_full3_t0_t2_d_a, 3, 4, [T0 T2 D A]);
+lru_seq!(c17_full3_t0_t3_d_a, 3, 4, [T0 T3 D A]);
+lru_seq!(c17_full3_t1_t0_d_a, 3, 4, [T1 T0 D A]);
+lru_seq!(c17_full3_t1_t3_d_a, 3, 4, [T1 T3 D A]);
+lru_seq!(c17_full3_t2_t0_d_a, 3, 4, [T2 T0 D A]);
+lru_seq!(c17_full3_t2_t1_d_a, 3, 4, [T2 T1 D A]);
+lru_seq!(c17_full3_t3_t1_d_a, 3, 4, [T3 T1 D A]);
+lru_seq!(c17_full3_t3_t2_d_a, 3, 4, [T3 T2 D A]);
+// @end
+
+// ---- histories that do not start with a touch -------------------------------------------------------
+// @family prop=C17 tier=quick timeout=900 mem=16 role=history-nontouch-first
+// @bounds capacity 2, 3-key alphabet; first step any of remove(k)/evict_tail/evict_to_target(grid)/reset on the EMPTY LRU, then any operation (length 2)
+// @encodes cascette_client_storage::lru::LruManager::new, cascette_client_storage::lru::LruManager::touch, cascette_client_storage::lru::LruManager::remove, cascette_client_storage::lru::LruManager::evict_tail, cascette_client_storage::lru::LruManager::evict_to_target, cascette_client_storage::lru::LruManager::reset, cascette_client_storage::lru::LruManager::contains, cascette_client_storage::lru::LruManager::len, cascette_client_storage::lru::LruManager::is_empty, cascette_client_storage::lru::LruManager::for_each_entry, cascette_client_storage::lru::LruManager::unlink, cascette_client_storage::lru::LruManager::link_at_head
+// @assumes hook H6: under cfg(kani) LruManager::key_map is a std BTreeMap instead of the std HashMap (same map contract; hashbrown does not finish); tracing neutralised (3 stubs); for_each_entry is compared on the non-zero keys only (a live all-zero key is skipped: known finding KF-2, c17_kf2_*); evict_to_target arguments from the 3-point grid (7,7)/(8,7)/(1,0) = exactly one / two / all entries (fully symbolic arguments: c17_evict_to_target_sym_*)
+// @catches touch not moving an existing key to the head, wrong victim on a full LRU, unlink/link_at_head pointer mistakes (head/tail/middle), remove or reset not returning slots to the free list, stale key_map entries after eviction, evict_to_target loop boundary (<= vs <), len/contains/order disagreeing with each other, capacity exceeded, key compares that ignore the last byte or treat the all-zero key as absent
+lru_seq!(c17_hist_c2_n_a, 2, 3, [N A]);
+// @end
+
+// ---- bump_generation interleaved ---------------------------------------------------------------------
+// @family prop=C17 tier=quick timeout=900 mem=16 role=history-bump-generation
+// @bounds capacity 2, 2-key alphabet; bump_generation before/after touch, remove/evict/reset: generation = previous + 1, prev_generation = previous, LRU content untouched (wrap at u64::MAX -> 1 is NOT reachable: the generation field is private and starts at 1)
+// @encodes cascette_client_storage::lru::LruManager::new, cascette_client_storage::lru::LruManager::touch, cascette_client_storage::lru::LruManager::remove, cascette_client_storage::lru::LruManager::evict_tail, cascette_client_storage::lru::LruManager::evict_to_target, cascette_client_storage::lru::LruManager::reset, cascette_client_storage::lru::LruManager::contains, cascette_client_storage::lru::LruManager::len, cascette_client_storage::lru::LruManager::is_empty, cascette_client_storage::lru::LruManager::for_each_entry, cascette_client_storage::lru::LruManager::unlink, cascette_client_storage::lru::LruManager::link_at_head
+// @assumes hook H6: under cfg(kani) LruManager::key_map is a std BTreeMap instead of the std HashMap (same map contract; hashbrown does not finish); tracing neutralised (3 stubs); for_each_entry is compared on the non-zero keys only (a live all-zero key is skipped: known finding KF-2, c17_kf2_*); evict_to_target arguments from the 3-point grid (7,7)/(8,7)/(1,0) = exactly one / two / all entries (fully symbolic arguments: c17_evict_to_target_sym_*)
+// @catches touch not moving an existing key to the head, wrong victim on a full LRU, unlink/link_at_head pointer mistakes (head/tail/middle), remove or reset not returning slots to the free list, stale key_map entries after eviction, evict_to_target loop boundary (<= vs <), len/contains/order disagreeing with each other, capacity exceeded, key compares that ignore the last byte or treat the all-zero key as absent
+lru_seq!(c17_hist_c2_bump, 2, 2, [B T B N B T]);
+// @end
+
+// ---- thorough: all histories of length <= 4 at capacity 1 and 2 ----------------------------------------
+// @family prop=C17 tier=thorough timeout=1800 mem=16 role=history-len4
+// @bounds capacity 1 (2-key alphabet) and 2 (3-key alphabet): EVERY history of length <= 4 starting with a touch (first key and second operation in the name: t<k> touch, r<k> remove, e evict_tail, g<i> evict_to_target grid point, z reset), later steps any of touch/remove/evict_tail/evict_to_target(grid)/reset with any alphabet key
+// @encodes cascette_client_storage::lru::LruManager::new, cascette_client_storage::lru::LruManager::touch, cascette_client_storage::lru::LruManager::remove, cascette_client_storage::lru::LruManager::evict_tail, cascette_client_storage::lru::LruManager::evict_to_target, cascette_client_storage::lru::LruManager::reset, cascette_client_storage::lru::LruManager::contains, cascette_client_storage::lru::LruManager::len, cascette_client_storage::lru::LruManager::is_empty, cascette_client_storage::lru::LruManager::for_each_entry, cascette_client_storage::lru::LruManager::unlink, cascette_client_storage::lru::LruManager::link_at_head
+// @assumes hook H6: under cfg(kani) LruManager::key_map is a std BTreeMap instead of the std HashMap (same map contract; hashbrown does not finish); tracing neutralised (3 stubs); for_each_entry is compared on the non-zero keys only (a live all-zero key is skipped: known finding KF-2, c17_kf2_*); evict_to_target arguments from the 3-point grid (7,7)/(8,7)/(1,0) = exactly one / two / all entries (fully symbolic arguments: c17_evict_to_target_sym_*)
+// @catches touch not moving an existing key to the head, wrong victim on a full LRU, unlink/link_at_head pointer mistakes (head/tail/middle), remove or reset not returning slots to the free list, stale key_map entries after eviction, evict_to_target loop boundary (<= vs <), len/contains/order disagreeing with each other, capacity exceeded, key compares that ignore the last byte or treat the all-zero key as absent
+lru_seq!(c17_hist4_c2_t0_t0_a_a, 2, 3, [T0 T0 A A]);
+lru_seq!(c17_hist4_c2_t0_t1_a_a, 2, 3, [T0 T1 A A]);
+lru_seq!(c17_hist4_c2_t0_t2_a_a, 2, 3, [T0 T2 A A]);
+lru_seq!(c17_hist4_c2_t0_r0_a_a, 2, 3, [T0 R0 A A]);
+lru_seq!(c17_hist4_c2_t0_r1_a_a, 2, 3, [T0 R1 A A]);
+lru_seq!(c17_hist4_c2_t0_r2_a_a, 2, 3, [T0 R2 A A]);
+lru_seq!(c17_hist4_c2_t0_e_a_a, 2, 3, [T0 E A A]);
+lru_seq!(c17_hist4_c2_t0_g1_a_a, 2, 3, [T0 G1 A A]);
+lru_seq!(c17_hist4_c2_t0_g2_a_a, 2, 3, [T0 G2 A A]);
+lru_seq!(c17_hist4_c2_t0_g3_a_a, 2, 3, [T0 G3 A A]);
+lru_seq!(c17_hist4_c2_t0_z_a_a, 2, 3, [T0 Z A A]);
+lru_seq!(c17_hist4_c2_t1_t0_a_a, 2, 3, [T1 T0 A A]);
+lru_seq!(c17_hist4_c2_t1_t1_a_a, 2, 3, [T1 T1 A A]);
+lru_seq!(c17_hist4_c2_t1_t2_a_a, 2, 3, [T1 T2 A A]);
+lru_seq!(c17_hist4_c2_t1_r0_a_a, 2, 3, [T1 R0 A A]);
+lru_seq!(c17_hist4_c2_t1_r1_a_a, 2, 3, [T1 R1 A A]);
+lru_seq!(c17_hist4_c2_t1_r2_a_a, 2, 3, [T1 R2 A A]);
+lru_seq!(c17_hist4_c2_t1_e_a_a, 2, 3, [T1 E A A]);
+lru_seq!(c17_hist4_c2_t1_g1_a_a, 2, 3, [T1 G1 A A]);
+lru_seq!(c17_hist4_c2_t1_g2_a_a, 2, 3, [T1 G2 A A]);
+lru_seq!(c17_hist4_c2_t1_g3_a_a, 2, 3, [T1 G3 A A]);
+lru_seq!(c17_hist4_c2_t1_z_a_a, 2, 3, [T1 Z A A]);
+lru_seq!(c17_hist4_c2_t2_t0_a_a, 2, 3, [T2 T0 A A]);
+lru_seq!(c17_hist4_c2_t2_t1_a_a, 2, 3, [T2 T1 A A]);
+lru_seq!(c17_hist4_c2_t2_t2_a_a, 2, 3, [T2 T2 A A]);
+lru_seq!(c17_hist4_c2_t2_r0_a_a, 2, 3, [T2 R0 A A]);
+lru_seq!(c17_hist4_c2_t2_r1_a_a, 2, 3, [T2 R1 A A]);
+lru_seq!(c17_hist4_c2_t2_r2_a_a, 2, 3, [T2 R2 A A]);
+lru_seq!(c17_hist4_c2_t2_e_a_a, 2, 3, [T2 E A A]);
+lru_seq!(c17_hist4_c2_t2_g1_a_a, 2, 3, [T2 G1 A A]);
+lru_seq!(c17_hist4_c2_t2_g2_a_a, 2, 3, [T2 G2 A A]);
+lru_seq!(c17_hist4_c2_t2_g3_a_a, 2, 3, [T2 G3 A A]);
+lru_seq!(c17_hist4_c2_t2_z_a_a, 2, 3, [T2 Z A A]);
+lru_seq!(c17_hist4_c1_t0_t0_a_a, 1, 2, [T0 T0 A A]);
+lru_seq!(c17_hist4_c1_t0_t1_a_a, 1, 2, [T0 T1 A A]);
+lru_seq!(c17_hist4_c1_t0_r0_a_a, 1, 2, [T0 R0 A A]);
+lru_seq!(c17_hist4_c1_t0_r1_a_a, 1, 2, [T0 R1 A A]);
+lru_seq!(c17_hist4_c1_t0_e_a_a, 1, 2, [T0 E A A]);
+lru_seq!(c17_hist4_c1_t0_g1_a_a, 1, 2, [T0 G1 A A]);
+lru_seq!(c17_hist4_c1_t0_g2_a_a, 1, 2, [T0 G2 A A]);
+lru_seq!(c17_hist4_c1_t0_g3_a_a, 1, 2, [T0 G3 A A]);
+lru_seq!(c17_hist4_c1_t0_z_a_a, 1, 2, [T0 Z A A]);
+lru_seq!(c17_hist4_c1_t1_t0_a_a, 1, 2, [T1 T0 A A]);
+lru_seq!(c17_hist4_c1_t1_t1_a_a, 1, 2, [T1 T1 A A]);
+lru_seq!(c17_hist4_c1_t1_r0_a_a, 1, 2, [T1 R0 A A]);
+lru_seq!(c17_hist4_c1_t1_r1_a_a, 1, 2, [T1 R1 A A]);
+lru_seq!(c17_hist4_c1_t1_e_a_a, 1, 2, [T1 E A A]);
+lru_seq!(c17_hist4_c1_t1_g1_a_a, 1, 2, [T1 G1 A A]);
+lru_seq!(c17_hist4_c1_t1_g2_a_a, 1, 2, [T1 G2 A A]);
+lru_seq!(c17_hist4_c1_t1_g3_a_a, 1, 2, [T1 G3 A A]);
+lru_seq!(c17_hist4_c1_t1_z_a_a, 1, 2, [T1 Z A A]);
+// @end
+
+// ---- evict_to_target with fully symbolic arguments (last step) -----------------------------------------
+macro_rules! evict_sym {
+    ($name:ident, $p:expr) => {
+        #[kani::proof]
+        #[kani::unwind(10)]
+        #[kani::stub(tracing_core::callsite::DefaultCallsite::interest, crate::tracing_stubs::interest_never)]
+        #[kani::stub(tracing::__macro_support::__is_enabled, crate::tracing_stubs::is_enabled_false)]
+        #[kani::stub(tracing_core::event::Event::dispatch, crate::tracing_stubs::dispatch_nop)]
+        fn $name() {
+            const P: usize = $p;
+            let target: u64 = kani::any();
+            let avg: u64 = kani::any();
+            // the running total `freed += avg` must not overflow (3 entries at most)
+            kani::assume(avg <= u64::MAX / 4);
+            let mut m = LruManager::new(3, PathBuf::new());
+            let mut md = Model::new(3, 4);
+            let fill = [1usize, 0, 2];
+            let mut i = 0;
+            while i < P {
+                let r = m.touch(&ALPHA[fill[i]]);
+                md.touch(fill[i]);
+                assert!(r, "touch with capacity >= 1 must return true");
+                i += 1;
+            }
+            let (cnt, freed) = m.evict_to_target(target, avg);
+            let (wc, wf) = model_evict_to_target(&mut md, target, avg);
+            assert!(cnt == wc, "evict_to_target evicted a wrong number of entries");
+            assert!(freed == wf, "evict_to_target reports wrong freed bytes");
+            assert!(m.len() == md.n, "len differs from the textbook LRU");
+            // survivors are the most recent ones
+            let q = any_below(P.max(1));
+            if P > 0 {
+                // fill[q] was touched q-th; it survives iff fewer than P - q entries were evicted... i.e. q >= wc
+                assert!(m.contains(&ALPHA[fill[q]]) == (q >= wc), "evict_to_target must remove the least recent entries first");
+            }
+            kani::cover!(wc == P && target > 0, "everything evicted");
+            kani::cover!(P == 0 || (wc < P && (wc > 0 || P == 1)), "stops early");
+            std::mem::forget(m);
+        }
+    };
+}
+// @family prop=C17 tier=quick timeout=900 role=evict-to-target-symbolic-args
+// @bounds capacity 3 holding P entries (P in the name, keys first-byte key / all-zero key / last-byte key), target_bytes and avg_entry_size fully symbolic u64 (avg <= u64::MAX/4); result pair, len and the surviving set compared with "evict least recent while freed < target"
+// @encodes cascette_client_storage::lru::LruManager::evict_to_target, cascette_client_storage::lru::LruManager::evict_tail, cascette_client_storage::lru::LruManager::touch, cascette_client_storage::lru::LruManager::contains, cascette_client_storage::lru::LruManager::len
+// @assumes hook H6 (BTreeMap key_map under cfg(kani)); tracing neutralised; avg_entry_size <= u64::MAX/4 so that `freed += avg_entry_size` cannot overflow (with larger values the unchecked addition panics in debug builds / wraps in release builds: reported, outside this property)
+// @catches loop condition <= instead of <, freed accumulated with the wrong operand, eviction from the head instead of the tail, count/bytes swapped, loop not stopping on an empty LRU
+evict_sym!(c17_evict_to_target_sym_p0, 0);
+evict_sym!(c17_evict_to_target_sym_p1, 1);
+evict_sym!(c17_evict_to_target_sym_p2, 2);
+evict_sym!(c17_evict_to_target_sym_p3, 3);
+// @end
+
+// ---- regression: explicit eviction must not cost capacity (former finding KF-1, fixed in /repo 59baa81) --
+// evict_tail (and evict_to_target through it) must give the freed slot back to free_list; before the
+// fix the slot was lost until reset(): the LRU silently shrank and, with every slot lost, touch() returned false.
+macro_rules! kf1 {
+    ($name:ident, $cap:expr, $use_target:expr) => {
+        #[kani::proof]
+        #[kani::unwind(10)]
+        #[kani::stub(tracing_core::callsite::DefaultCallsite::interest, crate::tracing_stubs::interest_never)]
+        #[kani::stub(tracing::__macro_support::__is_enabled, crate::tracing_stubs::is_enabled_false)]
+        #[kani::stub(tracing_core::event::Event::dispatch, crate::tracing_stubs::dispatch_nop)]
+        fn $name() {
+            const C: usize = $cap;
+            let mut m = LruManager::new(C as u32, PathBuf::new());
+            let mut md = Model::new(C, 4);
+            // fill to capacity with keys 1,2,3 (non-zero), evict explicitly, touch a new key
+            let mut i = 0;
+            while i < C {
+                let r = m.touch(&ALPHA[i + 1]);
+                md.touch(i + 1);
+                assert!(r, "touch with capacity >= 1 must return true");
+                i += 1;
+            }
+            if $use_target {
+                let (cnt, _) = m.evict_to_target(1, 1);
+                assert!(cnt == 1, "evict_to_target(1,1) evicts one entry");
+            } else {
+                assert!(m.evict_tail().is_some(), "evict_tail on a non-empty LRU");
+            }
+            md.evict();
+            assert!(m.len() == C - 1, "one entry evicted");
+            let r = m.touch(&ALPHA[0 + (C < 3) as usize * 3]); // a key not touched so far (K3 for C<3, K0 for C=3)
+            md.touch(0 + (C < 3) as usize * 3);
+            assert!(r, "touch after an explicit eviction must return true (slot freed by evict_tail must return to the free list)");
+            assert!(m.len() == md.n, "capacity lost after an explicit eviction (textbook LRU holds `capacity` keys again)");
+            assert!(m.contains(&ALPHA[0 + (C < 3) as usize * 3]), "touched key must be present");
+            kani::cover!(m.len() == C, "LRU full again after the explicit eviction");
+            std::mem::forget(m);
+        }
+    };
+}
+// @family prop=C17 tier=quick timeout=600 role=regression-capacity-after-explicit-eviction
+// @bounds capacity 1 / 2 (in the name): fill with distinct non-zero keys, one explicit eviction (evict_tail or evict_to_target(1,1)), touch of a new key; concrete history (regression for the former finding KF-1)
+// @encodes cascette_client_storage::lru::LruManager::touch, cascette_client_storage::lru::LruManager::evict_tail, cascette_client_storage::lru::LruManager::evict_to_target, cascette_client_storage::lru::LruManager::len
+// @assumes hook H6; tracing neutralised
+// @catches evict_tail / evict_to_target not returning the freed slot to the free list (capacity 1: touch(a), evict_tail(), touch(b) -> false, len 0; capacity 2: touch(a), touch(b), evict_tail(), touch(c) evicts b, len stays 1), slot pushed twice
+kf1!(c17_kf1_capacity_lost_evict_tail_c1, 1, false);
+kf1!(c17_kf1_capacity_lost_evict_to_target_c1, 1, true);
+kf1!(c17_kf1_capacity_lost_evict_tail_c2, 2, false);
+// @end
+
+// ---- known findings ----------------------------------------------------------------------------------
+// KF-2: a live all-zero key is skipped by for_each_entry (`is_active()` is `ekey != [0; 9]`).
+// @harness prop=C17 tier=quick timeout=600 role=kf2-zero-key-for-each
+// @bounds capacity 2: touch([0;9]) and one other alphabet key in either order (order symbolic), then for_each_entry
+// @encodes cascette_client_storage::lru::LruManager::touch, cascette_client_storage::lru::LruManager::for_each_entry, cascette_client_storage::lru::LruManager::contains, cascette_client_storage::lru::LruManager::len
+// @assumes hook H6. EXPECTED TO FAIL on the unchanged tree (known finding KF-2): after touch(&[0;9]) len()==1 and contains()==true but for_each_entry visits nothing (run_cycle's active_entries undercounts)
+// @catches (documents the defect)
+#[kani::proof]
+#[kani::unwind(10)]
+fn c17_kf2_zero_key_for_each() {
+    let zero_first: bool = kani::any();
+    let mut m = LruManager::new(2, PathBuf::new());
+    // two arms, each on concrete container state
+    if zero_first {
+        kf2_run(&mut m, 0, 2);
+    } else {
+        kf2_run(&mut m, 3, 0);
+    }
+    std::mem::forget(m);
+}
+fn kf2_run(m: &mut LruManager, a: usize, b: usize) {
+    assert!(m.touch(&ALPHA[a]) && m.touch(&ALPHA[b]), "touch with capacity >= 1 must return true");
+    assert!(m.len() == 2 && m.contains(&ALPHA[0]), "all-zero key is live");
+    let mut cnt = 0usize;
+    m.for_each_entry(|_| cnt += 1);
+    assert!(cnt == 2, "KF: for_each_entry skips a live all-zero key");
+}
